@@ -393,7 +393,7 @@ func exemptKey(table map[string]string, key string) (string, bool) {
 					continue
 				}
 				ts := tk[len(troot):]
-				if ts != suffix && core.ShortKey(tk)[len(troot):] != core.ShortKey(key)[len(root):] {
+				if ts != suffix && core.ShortKey(tk)[len(troot):] != core.ShortKey(key)[len(root):] && exemptProg.LooseSuffix(tk) != exemptProg.LooseSuffix(key) {
 					continue
 				}
 				tf := exemptProg.Fn(troot)
